@@ -4,7 +4,7 @@
    Vocabulary (Format/PatDispatch.v, Format/PatDispatchProofs.v; formatters: Format/PatModel.v):
      popts = (format pattern, add_metadata_to_multi_line_logs);  sink = (id, optional override
      options, sk_pass = apply_all_filters as a function of level, message line and the LOGGER's
-     statement);  dispatch_event hoist apply_spec lo sinks st lv = the model of
+     statement);  dispatch_event hoist v apply_spec lo sinks st lv = the model of
      BackendWorker::_dispatch_transit_event_to_sinks + _process_multi_line_message +
      _write_log_statement: (the (sink id, line) pairs handed to Sink::write_log in order,
      Some code when an exception left the event).  hoist = true is the DEFECTIVE variant in which
@@ -15,7 +15,11 @@
      message line m;  spec_msgs am st = the message lines of C12_multiline_on/off for the LOGGER's
      option am;  spec_sink lp am s st lv = for each message line that passes s's filters, the
      line of s's effective pattern;  lines_for id w = the lines sink id was handed.
-     apply_spec = the fmt field-rendering oracle, universally quantified (as in Properties_C12). *)
+     apply_spec = the fmt field-rendering oracle, universally quantified (as in Properties_C12).
+     v : pvar = the variant of the formatter code (PatModel.v: width of the MacroMetadata position
+     members, literal braces escaped or not): every statement here holds for every variant;
+     wfv v p = the valid patterns of the variant (PatProofs.v: wf p, and with the literal braces
+     escaped also literal text that holds braces; wf p -> wfv v p for every v). *)
 From Coq Require Import List NArith Bool Permutation.
 From Quill Require Import Format.PatFmt Format.PatModel Format.PatProofs.
 From Quill Require Import Format.PatDispatch Format.PatDispatchProofs TieC12d.
@@ -35,74 +39,74 @@ Proof. exact c12d_skeletons_ok. Qed.
 Print Assumptions C12d_tie_skeletons.
 
 (* ---- the whole event: every write, in order, and no exception ---- *)
-Theorem C12d_dispatch : forall apply_spec lp am ss st lv,
-  wf lp -> print lp <> [] -> Forall ssink_wf ss ->
-  dispatch_event false apply_spec {| po_pattern := print lp; po_add_meta := am |}
+Theorem C12d_dispatch : forall v apply_spec lp am ss st lv,
+  wfv v lp -> print lp <> [] -> Forall (ssink_wf v) ss ->
+  dispatch_event false v apply_spec {| po_pattern := print lp; po_add_meta := am |}
                  (map to_sink ss) st lv
-  = (spec_writes apply_spec lp am ss st lv, None).
+  = (spec_writes v apply_spec lp am ss st lv, None).
 Proof. exact dispatch_spec. Qed.
 Print Assumptions C12d_dispatch.
 
 (* ... for the variant the source selects (src_hoist = negb of the T-src fact) *)
-Theorem C12d_dispatch_code_variant : forall apply_spec lp am ss st lv,
-  wf lp -> print lp <> [] -> Forall ssink_wf ss ->
-  dispatch_event src_hoist apply_spec {| po_pattern := print lp; po_add_meta := am |}
+Theorem C12d_dispatch_code_variant : forall v apply_spec lp am ss st lv,
+  wfv v lp -> print lp <> [] -> Forall (ssink_wf v) ss ->
+  dispatch_event src_hoist v apply_spec {| po_pattern := print lp; po_add_meta := am |}
                  (map to_sink ss) st lv
-  = (spec_writes apply_spec lp am ss st lv, None).
+  = (spec_writes v apply_spec lp am ss st lv, None).
 Proof. exact dispatch_spec_code_variant. Qed.
 Print Assumptions C12d_dispatch_code_variant.
 
 (* ---- every sink of the logger receives exactly the lines of ITS OWN effective pattern for the
    message lines its filters pass; the other sinks do not appear on the right-hand side ---- *)
-Theorem C12d_sink_receives : forall apply_spec lp am ss st lv s,
-  wf lp -> print lp <> [] -> Forall ssink_wf ss -> NoDup (map ss_id ss) -> In s ss ->
+Theorem C12d_sink_receives : forall v apply_spec lp am ss st lv s,
+  wfv v lp -> print lp <> [] -> Forall (ssink_wf v) ss -> NoDup (map ss_id ss) -> In s ss ->
   lines_for (ss_id s)
-    (fst (dispatch_event false apply_spec {| po_pattern := print lp; po_add_meta := am |}
+    (fst (dispatch_event false v apply_spec {| po_pattern := print lp; po_add_meta := am |}
                          (map to_sink ss) st lv))
-  = spec_sink apply_spec lp am s st lv.
+  = spec_sink v apply_spec lp am s st lv.
 Proof. exact sink_receives. Qed.
 Print Assumptions C12d_sink_receives.
 
 (* independence of the other sinks: the same sink among two different sets of sinks *)
-Theorem C12d_sink_independent : forall apply_spec lp am ss ss' st lv s,
-  wf lp -> print lp <> [] ->
-  Forall ssink_wf ss -> NoDup (map ss_id ss) -> In s ss ->
-  Forall ssink_wf ss' -> NoDup (map ss_id ss') -> In s ss' ->
+Theorem C12d_sink_independent : forall v apply_spec lp am ss ss' st lv s,
+  wfv v lp -> print lp <> [] ->
+  Forall (ssink_wf v) ss -> NoDup (map ss_id ss) -> In s ss ->
+  Forall (ssink_wf v) ss' -> NoDup (map ss_id ss') -> In s ss' ->
   lines_for (ss_id s)
-    (fst (dispatch_event false apply_spec {| po_pattern := print lp; po_add_meta := am |}
+    (fst (dispatch_event false v apply_spec {| po_pattern := print lp; po_add_meta := am |}
                          (map to_sink ss) st lv))
   = lines_for (ss_id s)
-    (fst (dispatch_event false apply_spec {| po_pattern := print lp; po_add_meta := am |}
+    (fst (dispatch_event false v apply_spec {| po_pattern := print lp; po_add_meta := am |}
                          (map to_sink ss') st lv)).
 Proof. exact sink_independent. Qed.
 Print Assumptions C12d_sink_independent.
 
 (* independence of the order: any permutation of the logger's sinks *)
-Theorem C12d_sink_order_irrelevant : forall apply_spec lp am ss ss' st lv id,
-  wf lp -> print lp <> [] -> Forall ssink_wf ss -> NoDup (map ss_id ss) -> Permutation ss ss' ->
+Theorem C12d_sink_order_irrelevant : forall v apply_spec lp am ss ss' st lv id,
+  wfv v lp -> print lp <> [] -> Forall (ssink_wf v) ss -> NoDup (map ss_id ss) -> Permutation ss ss' ->
   lines_for id
-    (fst (dispatch_event false apply_spec {| po_pattern := print lp; po_add_meta := am |}
+    (fst (dispatch_event false v apply_spec {| po_pattern := print lp; po_add_meta := am |}
                          (map to_sink ss) st lv))
   = lines_for id
-    (fst (dispatch_event false apply_spec {| po_pattern := print lp; po_add_meta := am |}
+    (fst (dispatch_event false v apply_spec {| po_pattern := print lp; po_add_meta := am |}
                          (map to_sink ss') st lv)).
 Proof. exact sink_order_irrelevant. Qed.
 Print Assumptions C12d_sink_order_irrelevant.
 
 (* a sink whose filters reject the statement receives nothing; nor does a sink of another logger *)
-Theorem C12d_sink_filtered_out : forall apply_spec lp am ss st lv s,
-  wf lp -> print lp <> [] -> Forall ssink_wf ss -> NoDup (map ss_id ss) -> In s ss ->
+Theorem C12d_sink_filtered_out : forall v apply_spec lp am ss st lv s,
+  wfv v lp -> print lp <> [] -> Forall (ssink_wf v) ss -> NoDup (map ss_id ss) -> In s ss ->
   (forall m l, ss_pass s lv m l = false) ->
   lines_for (ss_id s)
-    (fst (dispatch_event false apply_spec {| po_pattern := print lp; po_add_meta := am |}
+    (fst (dispatch_event false v apply_spec {| po_pattern := print lp; po_add_meta := am |}
                          (map to_sink ss) st lv)) = [].
 Proof. exact sink_filtered_out. Qed.
 Print Assumptions C12d_sink_filtered_out.
 
-Theorem C12d_sink_absent : forall apply_spec lp am ss st lv id,
-  wf lp -> print lp <> [] -> Forall ssink_wf ss -> ~ In id (map ss_id ss) ->
+Theorem C12d_sink_absent : forall v apply_spec lp am ss st lv id,
+  wfv v lp -> print lp <> [] -> Forall (ssink_wf v) ss -> ~ In id (map ss_id ss) ->
   lines_for id
-    (fst (dispatch_event false apply_spec {| po_pattern := print lp; po_add_meta := am |}
+    (fst (dispatch_event false v apply_spec {| po_pattern := print lp; po_add_meta := am |}
                          (map to_sink ss) st lv)) = [].
 Proof. exact sink_absent. Qed.
 Print Assumptions C12d_sink_absent.
@@ -114,43 +118,46 @@ Proof. exact logger_formatter_eq. Qed.
 Print Assumptions C12d_logger_formatter.
 
 (* ---- non-vacuity: an override sink followed by a plain sink, with the computed outcome ---- *)
-Example C12d_nonvacuous :
-  (wf pat_L /\ print pat_L <> []) /\
-  (Forall ssink_wf [ex_over; ex_plain] /\ NoDup (map ss_id [ex_over; ex_plain])) /\
-  dispatch_event false id_spec (ex_lo true) (map to_sink [ex_over; ex_plain]) (ex_stmt [104; 105]%N) 4
+Example C12d_nonvacuous : forall v,
+  (wfv v pat_L /\ print pat_L <> []) /\
+  (Forall (ssink_wf v) [ex_over; ex_plain] /\ NoDup (map ss_id [ex_over; ex_plain])) /\
+  dispatch_event false v id_spec (ex_lo true) (map to_sink [ex_over; ex_plain]) (ex_stmt [104; 105]%N) 4
   = ([(0%N, [79; 32; 104; 105; 10]%N); (1%N, [76; 32; 104; 105; 10]%N)], None).
-Proof. exact (conj pat_L_wf (conj ex_sinks_wf ex_dispatch_good)). Qed.
+Proof.
+  exact (fun v => conj (conj (wf_wfv v _ (proj1 pat_L_wf)) (proj2 pat_L_wf))
+                      (conj (ex_sinks_wf v) (ex_dispatch_good v))).
+Qed.
 Print Assumptions C12d_nonvacuous.
 
 (* ---- refutation of the defective variant (declaration hoisted out of the loop): the plain sink
    behind an override sink is handed the override line, and the order of the sinks matters ---- *)
-Theorem C12d_hoisted_refuted :
-  let r := dispatch_event true id_spec (ex_lo true) (map to_sink [ex_over; ex_plain])
+Theorem C12d_hoisted_refuted : forall v,
+  let r := dispatch_event true v id_spec (ex_lo true) (map to_sink [ex_over; ex_plain])
                           (ex_stmt [104; 105]%N) 4 in
   lines_for 1 (fst r) = [[79; 32; 104; 105; 10]%N] /\
-  spec_sink id_spec pat_L true ex_plain (ex_stmt [104; 105]%N) 4 = [[76; 32; 104; 105; 10]%N] /\
-  lines_for 1 (fst r) <> spec_sink id_spec pat_L true ex_plain (ex_stmt [104; 105]%N) 4 /\
-  lines_for 1 (fst (dispatch_event true id_spec (ex_lo true) (map to_sink [ex_plain; ex_over])
+  spec_sink v id_spec pat_L true ex_plain (ex_stmt [104; 105]%N) 4 = [[76; 32; 104; 105; 10]%N] /\
+  lines_for 1 (fst r) <> spec_sink v id_spec pat_L true ex_plain (ex_stmt [104; 105]%N) 4 /\
+  lines_for 1 (fst (dispatch_event true v id_spec (ex_lo true) (map to_sink [ex_plain; ex_over])
                                    (ex_stmt [104; 105]%N) 4)) = [[76; 32; 104; 105; 10]%N].
 Proof. exact hoisted_refuted. Qed.
 Print Assumptions C12d_hoisted_refuted.
 
 (* ---- the add_metadata_to_multi_line_logs of a sink's OVERRIDE options is never read: the
    splitting follows the logger's option (spec_msgs am above).  Stated for both variants. ---- *)
-Theorem C12d_override_add_meta_ignored : forall hoist apply_spec lo sinks st lv,
-  dispatch_event hoist apply_spec lo (map clear_am sinks) st lv
-  = dispatch_event hoist apply_spec lo sinks st lv.
+Theorem C12d_override_add_meta_ignored : forall v hoist apply_spec lo sinks st lv,
+  dispatch_event hoist v apply_spec lo (map clear_am sinks) st lv
+  = dispatch_event hoist v apply_spec lo sinks st lv.
 Proof. exact override_add_meta_ignored. Qed.
 Print Assumptions C12d_override_add_meta_ignored.
 
 (* read per sink ("... when add_metadata_to_multi_line_logs is on / off" for the options the sink
    formats with) this refutes the multi-line clause: an override sink with the option off on a
    logger with the option on gets "a\nb" as two statements, and the other way round as one *)
-Theorem C12d_refuted_override_multiline_option :
-  lines_for 0 (fst (dispatch_event false id_spec (ex_lo true) (map to_sink [ex_over_noml])
+Theorem C12d_refuted_override_multiline_option : forall v,
+  lines_for 0 (fst (dispatch_event false v id_spec (ex_lo true) (map to_sink [ex_over_noml])
                                    (ex_stmt [97; 10; 98]%N) 4))
     = [[79; 32; 97; 10]%N; [79; 32; 98; 10]%N] /\
-  lines_for 0 (fst (dispatch_event false id_spec (ex_lo false) (map to_sink [ex_over])
+  lines_for 0 (fst (dispatch_event false v id_spec (ex_lo false) (map to_sink [ex_over])
                                    (ex_stmt [97; 10; 98]%N) 4))
     = [[79; 32; 97; 10; 98; 10]%N].
 Proof. exact override_multiline_option_refuted. Qed.
@@ -159,10 +166,10 @@ Print Assumptions C12d_refuted_override_multiline_option.
 (* ---- outside the property's quantifier (an override pattern that is rejected at creation):
    the sink's formatter is created inside the loop, the exception leaves the event, and the sinks
    BEHIND that sink receive nothing (independence of order needs valid override patterns) ---- *)
-Theorem C12d_invalid_override_starves_later_sinks :
-  dispatch_event false id_spec (ex_lo true) [ex_bad; to_sink ex_plain] (ex_stmt [104; 105]%N) 4
+Theorem C12d_invalid_override_starves_later_sinks : forall v,
+  dispatch_event false v id_spec (ex_lo true) [ex_bad; to_sink ex_plain] (ex_stmt [104; 105]%N) 4
   = ([], Some 12%N) /\
-  dispatch_event false id_spec (ex_lo true) [to_sink ex_plain; ex_bad] (ex_stmt [104; 105]%N) 4
+  dispatch_event false v id_spec (ex_lo true) [to_sink ex_plain; ex_bad] (ex_stmt [104; 105]%N) 4
   = ([(1%N, [76; 32; 104; 105; 10]%N)], Some 12%N).
 Proof. exact invalid_override_starves_later_sinks. Qed.
 Print Assumptions C12d_invalid_override_starves_later_sinks.
